@@ -1,33 +1,54 @@
 """C14 — read-modify-write commands never lose a concurrent update.
 
 A case: prior history (list of YAML definitions pushed one after the other onto a freshly created environment),
-2..3 commands of the real CLI, and a schedule = one interleaving of their GET/PATCH steps.  The implementation
-side (harness/cmd/implrun/c14.go) runs the commands concurrently in-process against a gated fake backend that
-serves the requests in exactly the scheduled order."""
+2..3 commands of the real CLI, and a schedule = one interleaving of their requests: a list of slots, each a
+command index i or [i, fault]; the k-th slot of command i serves its k-th request whatever it is (slots of a
+command that has ended are skipped), fault in lost (commit, answer 500) / drop (commit, close the connection) /
+reject (400 with diagnostics, nothing committed) applies if that request is a PATCH.  The implementation side
+(harness/cmd/implrun/c14.go) runs the commands concurrently in-process against a gated fake backend that serves
+the requests in exactly the scheduled order."""
 from .. import common as C
 
 ID = "C14"
 SRC_FACTS = ["occ_etag_header", "occ_get_returns_etag", "occ_update_sends_tag",
-             "occ_update_with_project_forwards_tag", "occ_set_sites", "occ_rm_sites", "occ_edit_sites"]
+             "occ_update_with_project_forwards_tag", "occ_set_sites", "occ_rm_sites", "occ_edit_sites",
+             "occ_should_retry_exact", "should_retry_table", "default_policy", "client_ops"]
 BATCH = 60
 IMPL_TIMEOUT = 600
 COQ_SAMPLE = 120
-RULE = ("exhaustive: every multiset of 2 commands over an alphabet of 11 commands ({set a|b|n.z|a.k, rm a|b|n.x, "
-        "edit(editor sets a|c), edit(editor empties the file), edit --file}) x EVERY interleaving of their GET/PATCH "
-        "steps (6; 3 with one blind writer) x 3 prior histories (fresh empty environment at revision 1; one prior "
-        "revision; three prior revisions with nested values and a comment); quick adds a seeded sample of "
-        "3-command cases, thorough ALL interleavings (90; 30 / 12 with blind writers) of every multiset of 3 commands "
-        "over the same alphabet x 3 histories.  non-trivial = at least two updates reached the backend; distinct by case content")
+RULE = ("exhaustive: every multiset of 2 commands over an alphabet of 12 commands ({set a|b|n.z|a.k, rm a|b|n.x, "
+        "edit(editor sets a|c), edit --show-secrets(editor sets c), edit(editor empties the file), edit --file}) x EVERY "
+        "interleaving of their GET/PATCH steps (6; 3 with one blind writer) x 3 prior histories (fresh empty environment "
+        "at revision 1; one prior revision; three prior revisions with nested values and a comment); the regression corpus "
+        "and a 4-command sub-alphabet also against a backend issuing weak validators (W/\"...\").  Fault families, "
+        "each: command A = every one of the 12 kinds, other writer B (quick: set b, rm a, edit c, edit --file; thorough: "
+        "all 12), A given one spare slot (two for an edit that saves twice) so that EVERY position of B's requests "
+        "relative to A's requests - also requests the unchanged code does not make: a second read, a re-sent update - "
+        "is scheduled: (lost) A's update is committed-if-accepted and answered 500 [drop: connection closed; quick only "
+        "with B = set b]; (reject) A's update is refused with diagnostics, the interactive edits have one ENTER and save "
+        "again (plus: no ENTER; both saves refused); (spare) no fault, the interactive kinds and set a / rm a with a "
+        "spare slot.  quick: richest history only, plus a seeded sample of 3-command cases (a third of them with one "
+        "fault); thorough: 3 histories, ALL interleavings (90; 30 / 12 with blind writers) of every multiset of 3 "
+        "commands over the alphabet.  non-trivial = at least two updates reached the backend; distinct by case content")
 ASSUMPTIONS = [
     "the fake backend enforces the service's tag contract: an update is applied iff it carries no tag or the ETag "
-    "of the current revision, otherwise 409; tags are unique per revision; GET and PATCH are atomic",
+    "of the current revision, otherwise 409; tags are unique per revision (so a re-sent update is refused; with "
+    "content-derived tags it could be accepted and undo another writer's update); GET and PATCH are atomic",
+    "scripted faults: an update answered 500 / whose connection is dropped WAS processed (committed iff the tag rule "
+    "accepts it); an update refused with diagnostics (400) commits nothing and is refused before the tag is looked at",
+    "exit statuses: a command that ends with a plain error after an update whose reply was lost is neither a success "
+    "nor a conflict - allowed whether or not the update was committed (it cannot know); the interactive edit that "
+    "ends with 'Aborting edit.' (no ENTER left after a refused save) or 'Aborting edit due to empty definition.' "
+    "exits 0 without a change - allowed (the person aborted)",
     "definitions are restricted to mappings with string keys and string scalars (path edits in general are C15); "
     "`rm a.b` with a missing intermediate key (an index-out-of-range panic of YAMLSyntax.Delete today, C15) is "
     "modelled as a panic but not generated",
     "a command's exit status is read from the error cobra returns (409 -> conflict)",
+    "the scripted editor makes the same change in every round (it is idempotent on the text), so the text saved after "
+    "a refused save equals the refused text; the model applies the script once per round all the same",
 ]
 TRUSTED = ["the gated fake ESC backend and the in-process command runner (harness/cmd/implrun/c14.go): request "
-           "order = schedule, request log, tag bookkeeping",
+           "order = schedule, faults, request log, tag bookkeeping",
            "net/http, cobra, yaml.v3, os/exec of the editor: exercised, not modelled"]
 
 # ------------------------------------------------------------------------------------------------
@@ -85,12 +106,35 @@ OPS = [
     {"k": "rm", "path": "b"},
     {"k": "abort"},
     {"k": "set", "path": "a.k", "val": "v4"},
+    {"k": "edit", "key": "c", "val": "w3", "secrets": True},
 ]
 SMALL = len(OPS)  # alphabet of the exhaustive 3-command family: all of them
+FAULT_B = [1, 3, 5, 7]      # the other writer of the fault families in quick: set b, rm a, edit c, edit --file
+SPARE_A = [0, 3, 4, 5, 9, 11]  # no-fault family with a spare slot: set a, rm a, edit a, edit c, abort, edit --show-secrets
 
 
 def steps(op):
     return 1 if op["k"] == "file" else 2
+
+
+def slot_cmd(x):
+    return x[0] if isinstance(x, list) else x
+
+
+def slot_fault(x):
+    return x[1] if isinstance(x, list) else "none"
+
+
+def with_fault(sched, cmd, nth, fault):
+    """put `fault` on the nth (0-based) slot of command cmd"""
+    out, seen = [], 0
+    for x in sched:
+        if slot_cmd(x) == cmd:
+            out.append([cmd, fault] if seen == nth else x)
+            seen += 1
+        else:
+            out.append(x)
+    return out
 
 
 def top_key(op):
@@ -153,10 +197,54 @@ def multisets(n, k, start=0):
             yield [i] + rest
 
 
-def mk(hist_i, op_idx, sched):
-    """cases are self-contained (a replay file is a concrete input): history texts + their tree, commands, schedule"""
+def mk(hist_i, op_idx, sched, enters=None):
+    """cases are self-contained (a replay file is a concrete input): history texts + their tree, commands, schedule;
+    enters: {position of an interactive edit: number of ENTER presses the person has}"""
     h = HISTS[hist_i]
-    return {"hist": list(h["yamls"]), "tree": h["tree"], "ops": [dict(OPS[i]) for i in op_idx], "sched": list(sched)}
+    ops = [dict(OPS[i]) for i in op_idx]
+    for i, n in (enters or {}).items():
+        if ops[i]["k"] == "edit":
+            ops[i]["enters"] = n
+    return {"hist": list(h["yamls"]), "tree": h["tree"], "ops": ops, "sched": list(sched)}
+
+
+def fault_families(tier):
+    """(hist, [A, B], schedule, enters) of the exhaustive fault families: A = ops[0] is the faulted command"""
+    hists = [2] if tier == "quick" else [0, 1, 2]
+    for h in hists:
+        for a in range(len(OPS)):
+            A = OPS[a]
+            na = steps(A)
+            inter = A["k"] == "edit"
+            for b in (FAULT_B if tier == "quick" else range(len(OPS))):
+                B = OPS[b]
+                if not admissible(HISTS[h], [A, B]):
+                    continue
+                nb = steps(B)
+                # lost / drop: A's update (its last nominal request) is processed and the reply never arrives; one
+                # spare slot for a re-sent update
+                for s in interleavings([na + 1, nb]):
+                    yield h, [a, b], with_fault(s, 0, na - 1, "lost"), None
+                    if tier != "quick" or b == 1:
+                        yield h, [a, b], with_fault(s, 0, na - 1, "drop"), None
+                # reject: A's update is refused with diagnostics
+                if inter:
+                    # one ENTER: read, save (refused), [spare: a re-read], save
+                    for s in interleavings([na + 2, nb]):
+                        yield h, [a, b], with_fault(s, 0, na - 1, "reject"), {0: 1}
+                    if tier != "quick" or b == 1:
+                        for s in interleavings([na + 1, nb]):
+                            # no ENTER: "Aborting edit."
+                            yield h, [a, b], with_fault(s, 0, na - 1, "reject"), {0: 0}
+                            # one ENTER, both saves refused
+                            yield h, [a, b], with_fault(with_fault(s, 0, na - 1, "reject"), 0, na, "reject"), {0: 1}
+                else:
+                    for s in interleavings([na + 1, nb]):
+                        yield h, [a, b], with_fault(s, 0, na - 1, "reject"), None
+                # spare: no fault, one spare slot between any two requests of A
+                if a in SPARE_A or tier != "quick":
+                    for s in interleavings([na + 1, nb]):
+                        yield h, [a, b], s, ({0: 1} if inter else None)
 
 
 def hist_of(c):
@@ -170,6 +258,14 @@ def gen(rng, tier):
         cases.append(mk(h, [0, 1], [0, 1, 0, 1]))
         cases.append(mk(h, [3, 4], [0, 1, 1, 0]))
         cases.append(mk(h, [0, 7, 5], [0, 2, 1, 0, 2]))
+    # the same shapes against a backend whose tags are weak validators (W/"...")
+    for c in list(cases):
+        cases.append(dict(c, weak=True))
+    for ms in multisets(len(FAULT_B), 2):
+        ops = [OPS[FAULT_B[i]] for i in ms]
+        if admissible(HISTS[1], ops):
+            for s in interleavings([steps(o) for o in ops]):
+                cases.append(dict(mk(1, [FAULT_B[i] for i in ms], s), weak=True))
     # exhaustive 2-command family
     for h in range(3):
         for ms in multisets(len(OPS), 2):
@@ -178,6 +274,9 @@ def gen(rng, tier):
                 continue
             for s in interleavings([steps(o) for o in ops]):
                 cases.append(mk(h, ms, s))
+    # exhaustive fault families
+    for h, ms, sched, enters in fault_families(tier):
+        cases.append(mk(h, ms, sched, enters))
     if tier == "thorough":
         for h in range(3):
             for ms in multisets(SMALL, 3):
@@ -188,8 +287,9 @@ def gen(rng, tier):
                     cases.append(mk(h, ms, s))
         n_rand = 1500
     else:
-        n_rand = 400
-    # seeded sample of 3-command cases over the whole alphabet (in random command order)
+        n_rand = 300
+    # seeded sample of 3-command cases over the whole alphabet (in random command order); every third one with a
+    # fault on one command's update and a spare slot for that command
     r = rng.fork("triples")
     while n_rand > 0:
         h = r.below(3)
@@ -197,14 +297,26 @@ def gen(rng, tier):
         ops = [OPS[i] for i in ms]
         if not admissible(HISTS[h], ops):
             continue
-        sched = r.shuffle([i for i, o in enumerate(ops) for _ in range(steps(o))])
-        cases.append(mk(h, ms, sched))
+        counts = [steps(o) for o in ops]
+        enters = None
+        victim = fault = None
+        if n_rand % 3 == 0:
+            victim = r.below(3)
+            fault = ["lost", "drop", "reject"][r.below(3)]
+            counts[victim] += 1
+            if fault == "reject" and ops[victim]["k"] == "edit":
+                counts[victim] += 1
+                enters = {victim: 1}
+        sched = r.shuffle([i for i, n in enumerate(counts) for _ in range(n)])
+        if victim is not None:
+            sched = with_fault(sched, victim, steps(ops[victim]) - 1, fault)
+        cases.append(mk(h, ms, sched, enters))
         n_rand -= 1
     return cases
 
 
 def prepare(c):
-    return {"hist": c["hist"], "ops": c["ops"], "sched": c["sched"]}
+    return {"hist": c["hist"], "ops": c["ops"], "sched": c["sched"], "weak": bool(c.get("weak"))}
 
 
 def sx_op(o):
@@ -214,7 +326,8 @@ def sx_op(o):
     if k == "rm":
         return "(rm (%s))" % " ".join(C.sx(p) for p in o["path"].split("."))
     if k == "edit":
-        return "(edit %s %s)" % (C.sx(o["key"]), C.sx(o["val"]))
+        return "(edit %s %s %s %d)" % (C.sx(o["key"]), C.sx(o["val"]), "t" if o.get("secrets") else "f",
+                                       int(o.get("enters", 0)))
     if k == "abort":
         return "(abort)"
     return "(file %s)" % sx_tree(o.get("tree"))
@@ -231,17 +344,19 @@ def sx_tag(t):
 def line(c, o):
     irev = 1 + len(c["hist"])
     head = "(c14 %s %d (%s) (%s)" % (sx_tree(c["tree"]), irev, " ".join(sx_op(o) for o in c["ops"]),
-                                   " ".join(str(i) for i in c["sched"]))
+                                   " ".join("(%d %s)" % (slot_cmd(x), slot_fault(x)) for x in c["sched"]))
     if o.get("res") != "ran":
         # crash / hang / harness refusal: an observation that agrees with nothing
         return head + " () (%s) n 0 f)" % " ".join("other" for _ in c["ops"])
     reqs = []
     for r in o.get("reqs") or []:
         if r.get("kind") == "get":
-            reqs.append("(get %d %s %d)" % (r["cmd"], sx_tree(r.get("def")), r["tag"]))
+            reqs.append("(get %d %s %d %s)" % (r["cmd"], sx_tree(r.get("def")), r["tag"], "t" if r.get("dec") else "f"))
         else:
-            reqs.append("(patch %d %s %s %s %d %s %s %d)" % (
-                r["cmd"], sx_tag(r["tag"]), "t" if r.get("status") == "ok" else "f", sx_tree(r.get("before")),
+            f = r.get("fault")
+            reqs.append("(patch %d %s %s %s %s %d %s %s %d)" % (
+                r["cmd"], sx_tag(r["tag"]), "t" if r.get("status") == "ok" else "f",
+                f if f in ("none", "lost", "drop", "reject") else "bad", sx_tree(r.get("before")),
                 r["brev"], sx_tree(r.get("body")), sx_tree(r.get("after")), r["arev"]))
     outs = [s if s in ("ok", "conflict", "err", "panic") else "other" for s in o.get("out") or []]
     clean = not o.get("extra") and not o.get("stuck")
@@ -250,21 +365,43 @@ def line(c, o):
 
 
 def shrink(c):
-    """drop one command (never below two: a lost update needs two writers), then simplify the history"""
+    """drop one command (never below two: a lost update needs two writers), drop a fault, drop a slot, fewer ENTER
+    presses, then simplify the history"""
     n = len(c["ops"])
-    if n <= 2:
-        return
-    for d in range(n):
-        ops = [x for i, x in enumerate(c["ops"]) if i != d]
-        sched = [i - (1 if i > d else 0) for i in c["sched"] if i != d]
-        if admissible(hist_of(c), ops):
-            yield dict(c, ops=ops, sched=sched)
+    if n > 2:
+        for d in range(n):
+            ops = [x for i, x in enumerate(c["ops"]) if i != d]
+            sched = []
+            for x in c["sched"]:
+                i = slot_cmd(x)
+                if i == d:
+                    continue
+                j = i - (1 if i > d else 0)
+                sched.append([j, slot_fault(x)] if isinstance(x, list) else j)
+            if admissible(hist_of(c), ops):
+                yield dict(c, ops=ops, sched=sched)
+    for p, x in enumerate(c["sched"]):
+        if isinstance(x, list):
+            yield dict(c, sched=c["sched"][:p] + [x[0]] + c["sched"][p + 1:])
+    # a spare slot (never below the requests the unchanged code makes: GET and PATCH, PATCH for edit --file)
+    have = {}
+    for x in c["sched"]:
+        have[slot_cmd(x)] = have.get(slot_cmd(x), 0) + 1
+    for p in range(len(c["sched"]) - 1, -1, -1):
+        i = slot_cmd(c["sched"][p])
+        if i < n and have.get(i, 0) > steps(c["ops"][i]):
+            yield dict(c, sched=c["sched"][:p] + c["sched"][p + 1:])
+    for i, o in enumerate(c["ops"]):
+        if o.get("enters", 0) > 0:
+            ops = [dict(x) for x in c["ops"]]
+            ops[i]["enters"] = o["enters"] - 1
+            yield dict(c, ops=ops)
     if c["hist"] != H1["yamls"] and admissible(H1, c["ops"]):
         yield dict(c, hist=list(H1["yamls"]), tree=H1["tree"])
 
 
 def describe(c):
-    return {"history": c["hist"], "commands": c["ops"], "schedule": c["sched"]}
+    return {"history": c["hist"], "commands": c["ops"], "schedule": c["sched"], "weak_tags": bool(c.get("weak"))}
 
 
 def distribution(cases, r):
@@ -274,6 +411,12 @@ def distribution(cases, r):
         k = "%dcmd:" % len(c["ops"]) + ",".join(sorted(str(x) for x in outs))
         d[k] = d.get(k, 0) + 1
     d["conflicts_total"] = sum(1 for o in r["obs"] for x in (o.get("out") or []) if x == "conflict")
+    for f in ("lost", "drop", "reject"):
+        d["cases_with_" + f] = sum(1 for c in cases if any(slot_fault(x) == f for x in c["sched"]))
+        d["updates_" + f] = sum(1 for o in r["obs"] for q in (o.get("reqs") or []) if q.get("fault") == f)
+    d["updates_committed_reply_lost"] = sum(1 for o in r["obs"] for q in (o.get("reqs") or [])
+                                            if q.get("fault") in ("lost", "drop") and q.get("status") == "ok")
+    d["cases_with_spare_slot"] = sum(1 for c in cases if len(c["sched"]) > sum(steps(o) for o in c["ops"]))
     return d
 
 
